@@ -411,8 +411,8 @@ theorem firstSkip_none (skip : Int) : ∀ (l : List (Bytes × Int)) (i : Nat),
     simp only [firstSkip, hc, if_false]
     exact ih _ (fun t ht => h t (by simp [ht]))
 
-theorem zipErr_map (k : Int) : ∀ tests : List (Bytes × Bytes × Nat),
-    zipErr (tests.map fun t => (t.1, (t.2.2 : Int))) (tests.map fun t => (t.2.1, k)) =
+theorem zipErr_map (k : Bytes × Bytes × Nat → Int) : ∀ tests : List (Bytes × Bytes × Nat),
+    zipErr (tests.map fun t => (t.1, (t.2.2 : Int))) (tests.map fun t => (t.2.1, k t)) =
       tests.map fun t => ⟨t.1, t.2.1, (t.2.2 : Int)⟩ := by
   intro tests
   induction tests with
@@ -426,15 +426,18 @@ theorem zipErr_nil : ∀ tests : List (Bytes × Nat),
   | nil => rfl
   | cons t r ih => simp [zipErr, ih]
 
-/-- separated streams: STDOUT carries payload and exit code, STDERR the payload (its dividers
-always carry the exit code of the preceding `echo`, 0) -/
+/-- separated streams: STDOUT carries payload and exit code, STDERR the payload; the code on the
+STDERR dividers (`ec`: since the exit code is taken by `__SCRUT_EXIT_CODE=$?` it is the test's own
+code; before, it was that of the preceding `echo`, 0) only has to parse, its value is ignored -/
 theorem executeAll_separate (salt : Bytes) (hs : COLON ∉ salt) (hsl : LF ∉ salt) (h126 : (126 : UInt8) ∉ salt)
     (skip scriptExit : Int)
-    (tests : List (Bytes × Bytes × Nat)) (hse : scriptExit ≠ skip) (hlen : tests.length ≤ 2 ^ 64)
-    (hg : ∀ t ∈ tests, noSalted salt t.1 = true ∧ noSalted salt t.2.1 = true ∧ t.2.2 < 2 ^ 31 ∧ (t.2.2 : Int) ≠ skip) :
+    (tests : List (Bytes × Bytes × Nat)) (ec : Bytes × Bytes × Nat → Nat)
+    (hse : scriptExit ≠ skip) (hlen : tests.length ≤ 2 ^ 64)
+    (hg : ∀ t ∈ tests, noSalted salt t.1 = true ∧ noSalted salt t.2.1 = true ∧ t.2.2 < 2 ^ 31 ∧ (t.2.2 : Int) ≠ skip)
+    (hec : ∀ t ∈ tests, ec t < 2 ^ 31) :
     executeAll salt tests.length false skip scriptExit
         (joinStream salt 0 (tests.map fun t => (t.1, t.2.2)))
-        (joinStream salt 0 (tests.map fun t => (t.2.1, 0))) =
+        (joinStream salt 0 (tests.map fun t => (t.2.1, ec t))) =
       .ok (tests.map fun t => ⟨t.1, t.2.1, (t.2.2 : Int)⟩) := by
   have hout := iterLines_joinStream none salt hs hsl h126 (tests.map fun t => (t.1, t.2.2)) 0
     (by
@@ -442,11 +445,11 @@ theorem executeAll_separate (salt : Bytes) (hs : COLON ∉ salt) (hsl : LF ∉ s
       obtain ⟨u, hu, rfl⟩ := List.mem_map.1 ht
       exact ⟨(hg u hu).1, (hg u hu).2.2.1⟩)
     (by simpa using hlen) (by intro n hn; cases hn)
-  have herr := iterLines_joinStream (some tests.length) salt hs hsl h126 (tests.map fun t => (t.2.1, 0)) 0
+  have herr := iterLines_joinStream (some tests.length) salt hs hsl h126 (tests.map fun t => (t.2.1, ec t)) 0
     (by
       intro t ht
       obtain ⟨u, hu, rfl⟩ := List.mem_map.1 ht
-      exact ⟨(hg u hu).2.1, Nat.two_pow_pos 31⟩)
+      exact ⟨(hg u hu).2.1, hec u hu⟩)
     (by simpa using hlen) (by intro n hn; cases hn; simp)
   have hskip : firstSkip skip ((tests.map fun t => (t.1, t.2.2)).map fun t => (t.1, (t.2 : Int))) 0 = none := by
     apply firstSkip_none
@@ -457,7 +460,7 @@ theorem executeAll_separate (salt : Bytes) (hs : COLON ∉ salt) (hsl : LF ∉ s
   unfold executeAll iterate splitAtNewline
   simp only [hse, if_false, hout, hskip, List.length_map, ne_eq, not_true_eq_false, herr]
   simp only [List.map_map, Function.comp_def]
-  exact congrArg ExecResult.ok (zipErr_map _ tests)
+  exact congrArg ExecResult.ok (zipErr_map (fun t => ((ec t : Nat) : Int)) tests)
 
 /-- merged streams (`output_stream: combined`): only STDOUT is split -/
 theorem executeAll_combined (salt : Bytes) (hs : COLON ∉ salt) (hsl : LF ∉ salt) (h126 : (126 : UInt8) ∉ salt)
@@ -476,5 +479,147 @@ theorem executeAll_combined (salt : Bytes) (hs : COLON ∉ salt) (hsl : LF ∉ s
   unfold executeAll iterate splitAtNewline
   simp only [hse, if_false, hout, hskip, List.length_map, ne_eq, not_true_eq_false, if_true]
   exact congrArg ExecResult.ok (zipErr_nil tests)
+
+/-! ## the script text (`compile_script`) -/
+
+/-- the footer of test `index`: what `compile_script` pushes behind the expression -/
+def footerLines (salt : List Char) (combined : Bool) (index : Nat) : List (List Char) :=
+  [[], assignLine, echoLine salt index] ++
+    (if combined then [] else [echoErrLine salt index]) ++ [unsetLine]
+
+theorem testLines_eq (salt : List Char) (combined : Bool) (index : Nat) (expr : List Char) :
+    testLines salt combined index expr = expr :: footerLines salt combined index := by
+  cases combined <;> rfl
+
+theorem scriptLines_append (salt : List Char) (combined : Bool) : ∀ (pre post : List (List Char)) (i : Nat),
+    scriptLines salt combined i (pre ++ post) =
+      scriptLines salt combined i pre ++ scriptLines salt combined (i + pre.length) post := by
+  intro pre
+  induction pre with
+  | nil => intro post i; simp [scriptLines]
+  | cons e es ih =>
+    intro post i
+    simp only [List.cons_append, scriptLines, ih, List.append_assoc, List.length_cons]
+    rw [show i + 1 + es.length = i + (es.length + 1) by omega]
+
+theorem qmark_not_mem_dec (k : Nat) : '?' ∉ (dec k).map (fun b => Char.ofNat b.toNat) := by
+  intro h
+  obtain ⟨b, hb, he⟩ := List.mem_map.1 h
+  obtain ⟨d, rfl⟩ := decF_digits _ _ b hb
+  rw [digit_toNat] at he
+  have hall : ∀ m, m < 10 → Char.ofNat (48 + m) ≠ '?' := by decide
+  exact hall (d % 10) (Nat.mod_lt _ (by decide)) he
+
+theorem qmark_not_mem_dividerText (salt : List Char) (k : Nat) (hs : '?' ∉ salt) :
+    '?' ∉ dividerText salt k := by
+  have hd := qmark_not_mem_dec k
+  have hp : '?' ∉ PREFIX.map (fun b => Char.ofNat b.toNat) := by decide
+  have he : '?' ∉ EXITVAR := by decide
+  simp only [dividerText, List.mem_append, not_or]
+  refine ⟨⟨⟨⟨⟨hp, hs⟩, by decide⟩, hd⟩, by decide⟩, he⟩
+
+theorem qmark_not_mem_echoLine (salt : List Char) (k : Nat) (hs : '?' ∉ salt) :
+    '?' ∉ echoLine salt k := by
+  have h := qmark_not_mem_dividerText salt k hs
+  simp only [echoLine, List.mem_append, not_or]
+  exact ⟨⟨by decide, h⟩, by decide⟩
+
+theorem qmark_not_mem_echoErrLine (salt : List Char) (k : Nat) (hs : '?' ∉ salt) :
+    '?' ∉ echoErrLine salt k := by
+  have h := qmark_not_mem_dividerText salt k hs
+  simp only [echoErrLine, List.mem_append, not_or]
+  exact ⟨⟨by decide, h⟩, by decide⟩
+
+theorem intercalate_cons_cons {α : Type} (sep a b : List α) (l : List (List α)) :
+    sep.intercalate (a :: b :: l) = a ++ sep ++ sep.intercalate (b :: l) := by
+  simp [List.intercalate, List.intersperse]
+
+
+theorem intercalate_append {α : Type} (sep : List α) : ∀ (l1 l2 : List (List α)), l1 ≠ [] → l2 ≠ [] →
+    sep.intercalate (l1 ++ l2) = sep.intercalate l1 ++ sep ++ sep.intercalate l2 := by
+  intro l1
+  induction l1 with
+  | nil => intro l2 h; exact absurd rfl h
+  | cons a t ih =>
+    intro l2 _ h2
+    cases t with
+    | nil =>
+      cases l2 with
+      | nil => exact absurd rfl h2
+      | cons b l => simp [List.intercalate, List.intersperse]
+    | cons b t =>
+      rw [List.cons_append, List.cons_append, intercalate_cons_cons, ← List.cons_append,
+        ih l2 (by simp) h2, intercalate_cons_cons]
+      simp [List.append_assoc]
+
+/-- the text of an expression with its footer -/
+theorem intercalate_testLines (salt : List Char) (combined : Bool) (k : Nat) (e : List Char) :
+    [NL].intercalate (testLines salt combined k e) =
+      e ++ [NL, NL] ++ assignLine ++ [NL] ++ echoLine salt k ++ [NL] ++
+        (if combined then [] else echoErrLine salt k ++ [NL]) ++ unsetLine := by
+  cases combined <;> simp [testLines, List.intercalate, List.intersperse]
+
+theorem testLines_ne_nil (salt : List Char) (combined : Bool) (k : Nat) (e : List Char) :
+    testLines salt combined k e ≠ [] := by simp [testLines]
+
+theorem scriptLines_ne_nil (salt : List Char) (combined : Bool) (k : Nat) (e : List Char) (es : List (List Char)) :
+    scriptLines salt combined k (e :: es) ≠ [] := by simp [scriptLines, testLines]
+
+/-- `compile_script`, around any one of its expressions -/
+theorem compileScript_at (salt : List Char) (combined : Bool) (exports pre : List (List Char))
+    (e : List Char) (post : List (List Char)) :
+    ∃ head tail : List Char,
+      compileScript salt combined exports (pre ++ e :: post) =
+        head ++ (e ++ [NL, NL] ++ assignLine ++ [NL] ++ echoLine salt pre.length ++ [NL] ++
+          (if combined then [] else echoErrLine salt pre.length ++ [NL]) ++ unsetLine) ++ tail ∧
+      (head = [] ∨ head.getLast? = some NL) ∧ (tail = [] ∨ tail.head? = some NL) := by
+  have hne : pre ++ e :: post ≠ [] := by simp
+  unfold compileScript
+  rw [if_neg hne, scriptLines_append, ← List.append_assoc]
+  simp only [scriptLines, Nat.zero_add]
+  rw [← intercalate_testLines]
+  generalize hH : exports ++ scriptLines salt combined 0 pre = H
+  generalize hT : scriptLines salt combined (pre.length + 1) post = T
+  have hmid := testLines_ne_nil salt combined pre.length e
+  by_cases h1 : H = [] <;> by_cases h2 : T = []
+  · exact ⟨[], [], by simp [h1, h2], Or.inl rfl, Or.inl rfl⟩
+  · refine ⟨[], [NL] ++ [NL].intercalate T, ?_, Or.inl rfl, Or.inr rfl⟩
+    rw [h1, List.nil_append, intercalate_append _ _ _ hmid h2]
+    simp [List.append_assoc]
+  · refine ⟨[NL].intercalate H ++ [NL], [], ?_, Or.inr (by simp), Or.inl rfl⟩
+    rw [h2, List.append_nil, intercalate_append _ _ _ h1 hmid]
+    simp [List.append_assoc]
+  · refine ⟨[NL].intercalate H ++ [NL], [NL] ++ [NL].intercalate T, ?_, Or.inr (by simp), Or.inr rfl⟩
+    rw [intercalate_append _ _ _ h1 (by simp [hmid]), intercalate_append _ _ _ hmid h2]
+    simp [List.append_assoc]
+
+/-- a line of the script that holds a `?` is one of the expressions or the assignment -/
+theorem scriptLines_qmark (salt : List Char) (combined : Bool) (hs : '?' ∉ salt) :
+    ∀ (exprs : List (List Char)) (i : Nat) (l : List Char), l ∈ scriptLines salt combined i exprs → '?' ∈ l →
+      l ∈ exprs ∨ l = assignLine := by
+  intro exprs
+  induction exprs with
+  | nil => intro i l h; simp [scriptLines] at h
+  | cons e es ih =>
+    intro i l h hq
+    simp only [scriptLines, List.mem_append] at h
+    rcases h with h | h
+    · have hu : '?' ∉ unsetLine := by decide
+      have h1 := qmark_not_mem_echoLine salt i hs
+      have h2 := qmark_not_mem_echoErrLine salt i hs
+      rw [testLines_eq] at h
+      rcases List.mem_cons.1 h with rfl | h
+      · exact Or.inl (List.mem_cons_self ..)
+      · have hf : l = [] ∨ l = assignLine ∨ l = echoLine salt i ∨ l = echoErrLine salt i ∨ l = unsetLine := by
+          cases combined <;> simp [footerLines] at h <;> rcases h with h | h | h | h <;> simp [h]
+        rcases hf with rfl | rfl | rfl | rfl | rfl
+        · simp at hq
+        · exact Or.inr rfl
+        · exact absurd hq h1
+        · exact absurd hq h2
+        · exact absurd hq hu
+    · rcases ih (i + 1) l h hq with h | h
+      · exact Or.inl (List.mem_cons_of_mem _ h)
+      · exact Or.inr h
 
 end Scrut.Divider
